@@ -66,7 +66,7 @@ def check(run, replay=None):
     run.trusted += ["coq-interval", "harness tools/props/c06.py (reads reported tables)"]
     run.assumptions += ["binary64 rounding at 1e-9 relative on volumes", "volume-curve tanks are excluded (recorded finding: np.interp clamps)",
                         "limit tolerance: the level change of 2 s of the step's own flow + 1e-6 m"]
-    ok, log, fails = common.coq_make(["theories/C06/Proofs.vo"])
+    ok, log, fails = common.coq_make(["theories/C06/Proofs.vo", "theories/C05/Tank.vo", "theories/C06/Limits.vo"])
     if not ok:
         for f, ln, msg in fails:
             run.tie_broken("proof no longer checks: %s line %s: %s" % (f, ln, common.theorem_line(f, ln)), msg)
